@@ -188,3 +188,42 @@ impl Drop for GatedSink {
         self.gate.cv.notify_all();
     }
 }
+
+
+/// A gated sink that forwards to a real inner sink once permitted (and forwards
+/// flush/stats): lets the harness hold the worker blocked in front of a socket sink.
+pub struct GatedForward<S> {
+    pub gate: Arc<Gate>,
+    pub inner: S,
+}
+
+impl<S> RefUnwindSafe for GatedForward<S> {}
+
+impl<S: MetricSink> MetricSink for GatedForward<S> {
+    fn emit(&self, metric: &str) -> io::Result<usize> {
+        let mut g = self.gate.lock();
+        g.entered += 1;
+        self.gate.cv.notify_all();
+        loop {
+            if g.permits.pop_front().is_some() || g.open.is_some() {
+                break;
+            }
+            g = match self.gate.cv.wait(g) {
+                Ok(x) => x,
+                Err(p) => p.into_inner(),
+            };
+        }
+        drop(g);
+        let r = self.inner.emit(metric);
+        let mut g = self.gate.lock();
+        g.exited += 1;
+        self.gate.cv.notify_all();
+        r
+    }
+    fn flush(&self) -> io::Result<()> {
+        self.inner.flush()
+    }
+    fn stats(&self) -> cadence::SinkStats {
+        self.inner.stats()
+    }
+}
